@@ -146,7 +146,8 @@ theorem unary_print_no_comment (e : UExpr) (h : e.atomsClean = true) : hasCommen
     simpa [UExpr.print, hco_cons_other '(' _ (by decide) (by decide), hco_append_close] using ih h
 
 /-- FULL statement: `!`s never fuse — the printed text contains no `!` immediately followed by an operator rune
-    (`= > < ! | :`), provided no operand text begins with an operator rune or contains such a pair itself. -/
+    (`= > < ! | :`), provided no operand text begins with an operator rune other than `:` (named placeholder) or
+    contains such a pair itself. -/
 theorem unary_print_no_bang_fusion (e : UExpr) (h : e.atomsNoOp = true) : hasBangFusion e.print = false := by
   induction e with
   | atom t =>
@@ -173,12 +174,14 @@ theorem unary_print_no_bang_fusion (e : UExpr) (h : e.atomsNoOp = true) : hasBan
   | paren e ih =>
     simpa [UExpr.print, hbf_cons_other '(' _ (by decide), hbf_append_close] using ih h
 
-/-- the hypothesis of `unary_print_no_bang_fusion` is needed: a named placeholder `:a` (prepared-statement mode)
-    under `!` still prints `!:a`, one unrecognised operator token `!:` -/
-theorem unary_print_bang_placeholder_counterexample :
-    (UExpr.bang (.atom [':', 'a'])).print = ['!', ':', 'a'] ∧
-    hasBangFusion (UExpr.bang (.atom [':', 'a'])).print = true ∧
+/-- a named placeholder `:a` (prepared-statement mode) under `!` prints `! :a`: the tokens `!` and the placeholder -/
+theorem unary_print_bang_placeholder :
+    (UExpr.bang (.atom [':', 'a'])).atomsNoOp = true ∧
+    (UExpr.bang (.atom [':', 'a'])).print = ['!', ' ', ':', 'a'] ∧
     ((scan asciiClasses ⟨true, false⟩ (UExpr.bang (.atom [':', 'a'])).print).toks.map (·.kind)) =
+      [.rune '!', .placeholder, .eof] ∧
+    -- before the repair: one unrecognised operator `!:` followed by an identifier
+    ((scan asciiClasses ⟨true, false⟩ (UExpr.bang (.atom [':', 'a'])).printOld).toks.map (·.kind)) =
       [.uncategorized, .identifier, .eof] := by decide
 
 /-- what the scanner makes of the printed `- -1` and `! !a`: the intended tokens -/
